@@ -30,7 +30,7 @@ theorem callConnectionHandler_eq {σ} (cfg : Cfg) (app : App σ) (env : IdleEnv)
       intro c2 q e1 e2 e3 e4; simp [Open, e1, e2, e3, e4]
     -- the automaton accepts the call
     have hstep : ∀ ret, ∃ q, Protocol.step p (LEv.handler site c.upOff 0 0 c.ctx d.ctxOut ret) = .req q ∧
-        q.handlerSeen = true ∧ q.site = site ∧ q.ctx = d.ctxOut ∧ q.nextOff = c.upOff ∧ q.replied = false ∧ q.failed = !ret := by
+        q.handlerSeen = true ∧ q.site = site ∧ q.ctx = d.ctxOut ∧ q.nextOff = c.upOff ∧ q.replied = false ∧ q.failed = (!ret) ∧ q.upgraded = false := by
       clear heq hd hop
       intro ret
       simp only [Inv] at hinv
@@ -54,7 +54,7 @@ theorem callConnectionHandler_eq {σ} (cfg : Cfg) (app : App σ) (env : IdleEnv)
     | cont =>
       simp [hact] at heq
       obtain ⟨rfl, rfl⟩ := heq
-      obtain ⟨q, hq, q1, q2, q3, q4, q5, q6⟩ := hstep true
+      obtain ⟨q, hq, q1, q2, q3, q4, q5, q6, q7⟩ := hstep true
       simp only [run_cons, run_nil, hq]
       simp only [Inv] at hinv
       rcases hsite with ⟨rfl, hst⟩ | ⟨rfl, hst⟩ <;>
@@ -63,7 +63,7 @@ theorem callConnectionHandler_eq {σ} (cfg : Cfg) (app : App σ) (env : IdleEnv)
       simp [hact] at heq
       generalize hce : closeError _ = rr at heq
       obtain ⟨c2, l2⟩ := rr
-      obtain ⟨q, hq, q1, q2, q3, q4, q5, q6⟩ := hstep false
+      obtain ⟨q, hq, q1, q2, q3, q4, q5, q6, q7⟩ := hstep false
       have := closeError_eq (p := .req q) hce (by simp [Open, hs, hc, q3])
       obtain ⟨rfl, rfl⟩ := heq
       have hne : ¬ CState.closed = c.state := by rcases hsite with ⟨_, e⟩ | ⟨_, e⟩ <;> simp [e]
@@ -73,7 +73,7 @@ theorem callConnectionHandler_eq {σ} (cfg : Cfg) (app : App σ) (env : IdleEnv)
     | suspend =>
       simp [hact] at heq
       obtain ⟨rfl, rfl⟩ := heq
-      obtain ⟨q, hq, q1, q2, q3, q4, q5, q6⟩ := hstep true
+      obtain ⟨q, hq, q1, q2, q3, q4, q5, q6, q7⟩ := hstep true
       simp only [run_cons, run_nil, hq]
       simp only [Inv] at hinv
       unfold suspendConn
@@ -93,7 +93,7 @@ theorem callConnectionHandler_eq {σ} (cfg : Cfg) (app : App σ) (env : IdleEnv)
         obtain ⟨hsd, hv⟩ := hacc
         simp [hsd, hv] at heq
         obtain ⟨rfl, rfl⟩ := heq
-        obtain ⟨q, hq, q1, q2, q3, q4, q5, q6⟩ := hstep true
+        obtain ⟨q, hq, q1, q2, q3, q4, q5, q6, q7⟩ := hstep true
         simp only [run_cons, run_nil, hq, step_req_queued, q5, Bool.false_eq_true, if_false]
         simp only [Inv] at hinv
         rcases hsite with ⟨rfl, hst⟩ | ⟨rfl, hst⟩ <;>
@@ -108,7 +108,7 @@ theorem callConnectionHandler_eq {σ} (cfg : Cfg) (app : App σ) (env : IdleEnv)
           | true =>
             simp at heq
             obtain ⟨rfl, rfl⟩ := heq
-            obtain ⟨q, hq, q1, q2, q3, q4, q5, q6⟩ := hstep true
+            obtain ⟨q, hq, q1, q2, q3, q4, q5, q6, q7⟩ := hstep true
             simp only [run_cons, run_nil, hq]
             simp only [Inv] at hinv
             rcases hsite with ⟨rfl, hst⟩ | ⟨rfl, hst⟩ <;>
@@ -117,7 +117,7 @@ theorem callConnectionHandler_eq {σ} (cfg : Cfg) (app : App σ) (env : IdleEnv)
             simp at heq
             generalize hce : closeError _ = rr at heq
             obtain ⟨c2, l2⟩ := rr
-            obtain ⟨q, hq, q1, q2, q3, q4, q5, q6⟩ := hstep false
+            obtain ⟨q, hq, q1, q2, q3, q4, q5, q6, q7⟩ := hstep false
             have := closeError_eq (p := .req q) hce (by simp [Open, hs, hc, q3])
             obtain ⟨rfl, rfl⟩ := heq
             simp only [run_cons, hq, this.1]
@@ -131,7 +131,7 @@ theorem callConnectionHandler_eq {σ} (cfg : Cfg) (app : App σ) (env : IdleEnv)
           | true =>
             simp at heq
             obtain ⟨rfl, rfl⟩ := heq
-            obtain ⟨q, hq, q1, q2, q3, q4, q5, q6⟩ := hstep true
+            obtain ⟨q, hq, q1, q2, q3, q4, q5, q6, q7⟩ := hstep true
             simp only [run_cons, run_nil, hq]
             simp only [Inv] at hinv
             rcases hsite with ⟨rfl, hst⟩ | ⟨rfl, hst⟩ <;>
@@ -140,7 +140,7 @@ theorem callConnectionHandler_eq {σ} (cfg : Cfg) (app : App σ) (env : IdleEnv)
             simp at heq
             generalize hce : closeError _ = rr at heq
             obtain ⟨c2, l2⟩ := rr
-            obtain ⟨q, hq, q1, q2, q3, q4, q5, q6⟩ := hstep false
+            obtain ⟨q, hq, q1, q2, q3, q4, q5, q6, q7⟩ := hstep false
             have := closeError_eq (p := .req q) hce (by simp [Open, hs, hc, q3])
             obtain ⟨rfl, rfl⟩ := heq
             simp only [run_cons, hq, this.1]
@@ -173,7 +173,7 @@ theorem callApp_upload_eq {σ} (cfg : Cfg) (app : App σ) (env : IdleEnv) (c : C
   simp only [hd] at heq
   have hstep : ∀ ret, ∃ q, Protocol.step p (LEv.handler .upload c.upOff offered (min d.take offered) c.ctx d.ctxOut ret) = .req q ∧
       q.handlerSeen = true ∧ q.site = .upload ∧ q.ctx = d.ctxOut ∧ q.nextOff = c.upOff + min d.take offered ∧
-      q.replied = false ∧ q.failed = !ret := by
+      q.replied = false ∧ q.failed = (!ret) ∧ q.upgraded = false := by
     clear heq hd
     intro ret
     cases p with
@@ -189,26 +189,26 @@ theorem callApp_upload_eq {σ} (cfg : Cfg) (app : App σ) (env : IdleEnv) (c : C
   | cont =>
     simp [hact] at heq
     obtain ⟨rfl, rfl, rfl, rfl⟩ := heq
-    obtain ⟨q, hq, q1, q2, q3, q4, q5, q6⟩ := hstep true
+    obtain ⟨q, hq, q1, q2, q3, q4, q5, q6, q7⟩ := hstep true
     simp only [run_cons, run_nil, hq]
     simp_all [Rel, Inv, respOrUpg, Open, stateSite]
   | fail =>
     simp [hact] at heq
     obtain ⟨rfl, rfl, rfl, rfl⟩ := heq
-    obtain ⟨q, hq, q1, q2, q3, q4, q5, q6⟩ := hstep false
+    obtain ⟨q, hq, q1, q2, q3, q4, q5, q6, q7⟩ := hstep false
     simp only [run_cons, run_nil, hq]
     simp_all [Rel, Inv, respOrUpg, Open, stateSite]
   | suspend =>
     simp [hact] at heq
     obtain ⟨rfl, rfl, rfl, rfl⟩ := heq
-    obtain ⟨q, hq, q1, q2, q3, q4, q5, q6⟩ := hstep true
+    obtain ⟨q, hq, q1, q2, q3, q4, q5, q6, q7⟩ := hstep true
     simp only [run_cons, run_nil, hq]
     unfold suspendConn
     by_cases hal : cfg.allowSuspend = true <;> simp_all [Rel, Inv, respOrUpg, Open, stateSite]
   | reply r retIfRefused =>
     simp [hact, queueResponse, hresp, hst] at heq
     obtain ⟨rfl, rfl, rfl, rfl⟩ := heq
-    obtain ⟨q, hq, q1, q2, q3, q4, q5, q6⟩ := hstep retIfRefused
+    obtain ⟨q, hq, q1, q2, q3, q4, q5, q6, q7⟩ := hstep retIfRefused
     simp only [run_cons, run_nil, hq]
     cases retIfRefused <;> simp_all [Rel, Inv, respOrUpg, Open, stateSite]
 
